@@ -154,8 +154,18 @@ fn run_sequence(r: &mut Report, lab: &Lab, seed: u64, seq: u64, all_tokens: &mut
             }
         };
         let pick_token = |rng: &mut Rng, m: &Model| -> String {
-            match rng.below(8) {
+            match rng.below(9) {
                 0 => rng.pick(&unknown_tokens).to_string(),
+                1 if !m.tokens.is_empty() => {
+                    // near misses of real tokens: a prefix, or the token with trailing characters
+                    let t = rng.pick(&m.tokens).clone();
+                    match rng.below(4) {
+                        0 => t[..8].to_string(),
+                        1 => t[..63].to_string(),
+                        2 => format!("{}00", t),
+                        _ => t.to_ascii_uppercase(),
+                    }
+                }
                 _ if !m.tokens.is_empty() => {
                     // bias towards recent tokens, but old (superseded / invalidated / expired) ones are probed too
                     if rng.chance(1, 2) { m.tokens[m.tokens.len() - 1].clone() } else { rng.pick(&m.tokens).clone() }
